@@ -529,26 +529,28 @@ pub fn run_case(case: &Case, st: &mut Stats) -> CaseResult {
     };
     let from_poly = |p: Polynomial<RealSemiring>| -> Vec<f64> { p.coefficients.iter().map(|c| c.0).collect() };
     check_normalised("polynomial", &reps, n, &|v, b| to_poly(pw(v, b)), &pw, &pops, &from_poly)?;
-    // degree-5 weights: with n >= 7 variables the products pass degree 31 and are truncated at 32 coefficients
-    // (the reference multiplies modulo x^32)
+    // sparse weights of mixed degrees: high = c0 + cd x^d with d drawn per variable from a list whose sums hit
+    // every boundary of the 32-coefficient array (30, 31, 32 and beyond: 15+16, 31+0, 10+15+6, 16+16, ...);
+    // the reference multiplies modulo x^32
+    const DEGS: [usize; 10] = [1, 2, 3, 5, 6, 7, 10, 15, 16, 31];
+    let deg = |v: usize| DEGS[(wsel[v][0] % 10) as usize];
     let pw5 = |v: usize, b: bool| -> Vec<f64> {
         let c0 = (wsel[v][1] % 3) as f64;
-        let c2 = (wsel[v][2] % 3) as f64 - 1.0;
-        let c5 = 1.0 + (wsel[v][3] % 2) as f64;
+        let cd = 1.0 + (wsel[v][3] % 2) as f64;
         let mut o = vec![0.0; MAX_COEFFS];
         if b {
             o[0] = c0;
-            o[2] = c2;
-            o[5] = c5;
+            o[deg(v)] = cd;
         } else {
             o[0] = 1.0 - c0;
-            o[2] = -c2;
-            o[5] = -c5;
+            o[deg(v)] = -cd;
         }
         o
     };
-    check_normalised("polynomial-degree-5", &reps, n, &|v, b| to_poly(pw5(v, b)), &pw5, &pops, &from_poly)?;
-    st.flag("polynomial_product_truncated", n * 5 >= MAX_COEFFS);
+    check_normalised("polynomial-mixed-degrees", &reps, n, &|v, b| to_poly(pw5(v, b)), &pw5, &pops, &from_poly)?;
+    let total_deg: usize = (0..n).map(deg).sum();
+    st.flag("polynomial_degree_sum_reaches_31", total_deg >= 31);
+    st.flag("polynomial_product_truncated", total_deg >= MAX_COEFFS);
     let pw2 = |v: usize, b: bool| -> Vec<f64> {
         let mut o = vec![0.0; MAX_COEFFS];
         if b {
@@ -644,7 +646,7 @@ pub struct Counts;
 impl SubCheckT for Counts {
     type Case = Case;
     const NAME: &'static str = "counts";
-    const RULE: &'static str = "a function (random truth table over <=6 variables with a random support mask, or a random CNF over <=7) represented as BDDs under 3 random orders (regular and negated pointers), SDDs under 2 random vtrees (second one uncompressed when n<=4; regular and negated), an SDD from SemanticSddBuilder over the 64-bit field, and, for CNFs, both top-down stores (regular and negated); every representation is counted against the function read off the diagram itself; weight tables built in four ways (set_weight ascending / descending / WmcParams::new / placeholders overwritten in a scrambled order), weights whose low+high is the semiring's one: real dyadics k/8, all 7 exported finite fields plus GF(2^107-1) and GF(2^127-1) (boundary + random residues), expected utility (p,u)/(1-p,-u), complex, degree-2 and degree-5 integer polynomials (the latter truncated at 32 coefficients when n = 7), rational indicators: every count = exact brute-force sum over models; evaluate() = truth-table bit on all 2^n assignments; arbitrary non-normalised weights on the canonical BDDs = the Shannon sum over the variables each sub-function depends on (order-aware), for all seven semirings. Non-trivial: non-constant function with >=3 support variables";
+    const RULE: &'static str = "a function (random truth table over <=6 variables with a random support mask, or a random CNF over <=7) represented as BDDs under 3 random orders (regular and negated pointers), SDDs under 2 random vtrees (second one uncompressed when n<=4; regular and negated), an SDD from SemanticSddBuilder over the 64-bit field, and, for CNFs, both top-down stores (regular and negated); every representation is counted against the function read off the diagram itself; weight tables built in four ways (set_weight ascending / descending / WmcParams::new / placeholders overwritten in a scrambled order), weights whose low+high is the semiring's one: real dyadics k/8, all 7 exported finite fields plus GF(2^107-1) and GF(2^127-1) (boundary + random residues), expected utility (p,u)/(1-p,-u), complex, degree-2 integer polynomials and sparse polynomials of mixed degrees 1..31 (degree sums reach and pass the 32-coefficient limit, where products are truncated), rational indicators: every count = exact brute-force sum over models; evaluate() = truth-table bit on all 2^n assignments; arbitrary non-normalised weights on the canonical BDDs = the Shannon sum over the variables each sub-function depends on (order-aware), for all seven semirings. Non-trivial: non-constant function with >=3 support variables";
     fn cases(tier: Tier) -> u32 {
         tier.pick(5000, 60_000)
     }
